@@ -1,5 +1,6 @@
 import Chiritori.Props.C15
 import Chiritori.Lemmas.Erase
+import Chiritori.Lemmas.EraseCR
 import Chiritori.Lemmas.ItemLines
 import Chiritori.Lemmas.PiecesOut
 /-
@@ -19,7 +20,9 @@ import Chiritori.Lemmas.PiecesOut
   * `json_shape`, `buildList_length`, `json_escape_safe`: one JSON object per region, in order; the escaped block
     contains no unescaped quote, backslash or control character.
   * `highlight_is_region` (C15's last clause): what stands between the colour codes is the text of the region.
-  Not proved: the same for CRLF texts (correspondence and reference renderer only; D17 was found there), serde_json
+  * `json_block_is_pretty_block_cr`, `lines_no_trailing_cr`: the single-item statement for CR LF texts, under the
+    premises the D17 repair provides.
+  Not proved: the whole-list and source-line statements for CRLF texts (correspondence and reference renderer), serde_json
   itself (modelled), the file starting with a line break (D8).  D18 (a line-break byte numbered with the next line)
   was found while stating `item_shows_source_lines` and repaired.
 -/
@@ -442,5 +445,92 @@ example :
     ((srcLines s).drop (2 - 1)).take (3 + 1 - 2) = ["\tb <x>".toList, "y</x> c".toList] ∧
     (charsOf (geomOf (bytesOf s) 5 14 (some (2, 3))).mid).getLast? ≠ some '\n' := by
   refine ⟨by decide, by decide, by decide +kernel, by decide +kernel, by decide +kernel⟩
+
+/-! ### CR LF texts -/
+
+/-- a text in which no carriage return is followed by another one and which does not end with one: no line of it
+    (as `str::lines` reads it) ends with a carriage return -/
+theorem lines_no_trailing_cr : ∀ (m cur : List Char),
+    (∀ u v, cur ++ m ≠ u ++ '\r' :: '\r' :: v) → (cur ++ m).getLast? ≠ some '\r' → (∀ c ∈ cur, c ≠ '\n') →
+    ∀ l ∈ (splitInclusive m cur).map stripLineEnd, l.getLast? ≠ some '\r'
+  | [], [], _, _, _, l, hl => by simp [splitInclusive] at hl
+  | [], d :: ds, _, hlast, hn, l, hl => by
+    simp only [splitInclusive, List.map_cons, List.map_nil, List.mem_singleton] at hl
+    subst hl
+    rw [stripLineEnd_id _ (by
+      intro hh
+      have := List.mem_of_getLast? hh
+      exact hn _ this rfl)]
+    simpa using hlast
+  | c :: cs, cur, hrr, hlast, hn, l, hl => by
+    simp only [splitInclusive] at hl
+    split at hl
+    · rename_i hc
+      subst hc
+      simp only [List.map_cons, List.mem_cons] at hl
+      rcases hl with rfl | hl
+      · rw [stripLineEnd_piece]
+        unfold stripCR
+        split
+        · rename_i hcr
+          intro hh
+          -- cur ends with two carriage returns
+          rcases List.eq_nil_or_concat cur with rfl | ⟨c0, z, rfl⟩
+          · simp at hcr
+          · simp only [List.concat_eq_append, List.getLast?_concat, Option.some.injEq] at hcr
+            subst hcr
+            simp only [List.concat_eq_append, List.dropLast_concat] at hh
+            rcases List.eq_nil_or_concat c0 with rfl | ⟨c1, z2, rfl⟩
+            · simp at hh
+            · simp only [List.concat_eq_append, List.getLast?_concat, Option.some.injEq] at hh
+              subst hh
+              exact hrr c1 ('\n' :: cs) (by simp)
+        · rename_i hcr; exact hcr
+      · apply lines_no_trailing_cr cs [] _ _ (by simp) l hl
+        · intro u v hh
+          exact hrr (cur ++ '\n' :: u) v (by rw [List.nil_append] at hh; rw [hh]; simp)
+        · intro hh
+          apply hlast
+          rw [List.nil_append] at hh
+          cases cs with
+          | nil => simp at hh
+          | cons d ds =>
+            rw [show cur ++ '\n' :: d :: ds = (cur ++ ['\n']) ++ (d :: ds) by simp,
+              List.getLast?_append, hh]; rfl
+    · rename_i hc
+      apply lines_no_trailing_cr cs (cur ++ [c]) _ _ _ l hl
+      · intro u v hh; exact hrr u v (by simpa using hh)
+      · simpa using hlast
+      · intro d hd
+        rcases List.mem_append.mp hd with hd | hd
+        · exact hn d hd
+        · simp only [List.mem_singleton] at hd; subst hd; exact hc
+
+/-- C16, last clause, CR LF texts included: the pretty item is the JSON block with colour codes inserted, and stripping
+    them gives it back - for a text without escape characters, a region that does not begin between a CR and its LF,
+    and a highlighted span none of whose lines ends with a CR (`lines_no_trailing_cr`: no CR CR in the span, and the
+    span does not end with a CR - the D17 repair) -/
+theorem json_block_is_pretty_block_cr (s : List Char) (start stop : Nat) (isRemoval : Bool) (lr : Nat × Nat)
+    (h1 : BPos (bytesOf s) start) (h2 : BPos (bytesOf s) stop) (hlt : start < stop) (hesc : ∀ c ∈ s, c ≠ '\x1b')
+    (hpre : (charsOf (geomOf (bytesOf s) start stop (some lr)).pre).getLast? ≠ some '\r')
+    (hmid : ∀ l ∈ rustLines (charsOf (geomOf (bytesOf s) start stop (some lr)).mid), l.getLast? ≠ some '\r') :
+    ∃ y x, buildItem (bytesOf s) start stop isRemoval true (some lr) = .ok y ∧
+      buildItem (bytesOf s) start stop isRemoval false (some lr) = .ok x ∧ Er y x ∧ stripAnsi y = x := by
+  have hg := itemGeom_ok s start stop lr h1 h2 hlt
+  have her := er_renderItem_cr true isRemoval (some lr) _
+    (fun c hc => hesc c (geom_chars s start stop _ c hc)) hpre hmid
+  refine ⟨_, _, by unfold buildItem; rw [hg], by unfold buildItem; rw [hg], her, ?_⟩
+  exact strip_er her (noEsc_renderItem isRemoval (some lr) _ (fun c hc => hesc c (geom_chars s start stop _ c hc)))
+
+/-! Non-vacuity: the opening part of an unwrap-block in a CR LF text (the witness of D17): the region ends in front of
+    the CR LF of the wrapper line; with the repaired `colorEndOf` the premises hold and the two forms agree. -/
+example :
+    let s := "a\r\n<x>\r\n{\r\n  y\r\n".toList
+    (charsOf (geomOf (bytesOf s) 3 10 (some (2, 3))).pre).getLast? ≠ some '\r' ∧
+    (rustLines (charsOf (geomOf (bytesOf s) 3 10 (some (2, 3))).mid)).all (fun l => l.getLast? != some '\r') = true ∧
+    (match buildItem (bytesOf s) 3 10 true true (some (2, 3)), buildItem (bytesOf s) 3 10 true false (some (2, 3)) with
+     | .ok y, .ok x => stripAnsi y == x && y != x
+     | _, _ => false) = true := by
+  refine ⟨by decide +kernel, by decide +kernel, by decide +kernel⟩
 
 end Chiritori.Props.C16
